@@ -9,3 +9,25 @@ def matcher(name):
         MATCHERS[name] = f
         return f
     return deco
+
+
+@matcher('c05_const_inequality_float_tie')
+def c05_const_inequality_float_tie(c, k):
+    """const_inequality evaluates with IEEE doubles: when both sides are *exactly equal* as reals (a tie), rounding of
+    sqrt/*// can make a strict comparison come out true.  Only ties are covered: any accepted false statement whose
+    sides differ as reals is a different defect."""
+    if c.get('kind') != 'fp-false' or c.get('macro') != 'const_inequality' or c.get('rel') not in ('less', 'greater'):
+        return False
+    v = c['vals']
+    a, b, cc = v['a'], v['b'], v['c']
+    t = c['template']
+    if t == 0:
+        return True
+    if t == 1:
+        return a * b == cc * cc
+    if t == 2:
+        d = cc - a - b
+        return d >= 0 and 4 * a * b == d * d
+    if t == 3:
+        return a * a == b * cc
+    return False
